@@ -315,6 +315,10 @@ def run(ctx):
     # a flat-only profile (no nesting: the manager's documented relation is exact there)
     flat = H.Opts(nested=False, setc=False, max_ops=25)
     drive(ctx, H.histories(flat), body, max(20, n // 3), salt=2, label="C01 flat histories")
+    # long histories (the world is small, so these are mostly re-definitions, removals and re-registrations of the same
+    # locations: what accumulates in the indices over a long session); a few in the quick tier, many in the thorough one
+    long = H.Opts(min_ops=40, max_ops=ctx.n(60, 120))
+    drive(ctx, H.histories(long), body, ctx.n(12, 250), salt=3, label="C01 long histories")
 
 
 def replay(ctx, case):
